@@ -1,12 +1,17 @@
 (* Correspondence check for C10: one call of the real
    VolumeGrowth.findEmptySlotsForOneVolume on a topology whose counters (at every
-   level) were read back from the real node objects. *)
-From Coq Require Import String List ZArith Bool.
+   level) were read back from the real node objects.  In a share of the cases the topology
+   is the result of a heartbeat HISTORY on a real topology.Topology (field [hist]); the
+   placement is then also judged against the ground truth computed from the events alone
+   (model/TopoPlaceTruth.v), not only against the counters. *)
+From Coq Require Import String List ZArith NArith Bool.
+From SW Require Import model.TopoCount model.TopoPlaceTruth.
 From SW Require Export base.Verdict model.TopoPlace.
 Import ListNotations.
 
 Record case := {
   topo : topology;            (* ids and per-disk-type counters of every node, as the code sees them *)
+  hist : option (list op);    (* Some ops: [topo] was read back after these heartbeat events on a new Topology *)
   opt : grow_option;
   big : bool;                 (* some fan-out above 3: the oracle enumeration [admits] is skipped *)
   impl_servers : list server; (* returned servers as (dc, rack, node) ids, in the returned order *)
@@ -30,6 +35,20 @@ Definition Sv (a b c : string) : server := (a, b, c).
 Definition Op (disk dc rk n : string) (x y z : nat) : grow_option :=
   {| go_disk := disk; go_dc := dc; go_rack := rk; go_node := n; rp_dc := x; rp_rack := y; rp_same := z |}.
 
+(* heartbeat events (TopoCount.op) *)
+Definition P3 (a b c : string) : path := [a; b; c].
+Definition M (k : string) (v : Z) : string * Z := (k, v).
+Definition VS (id : N) (disk : string) : vshort := (id, disk).
+Definition MV (id : N) (disk : string) (remote ro : bool) : vinfo := mkV id disk remote ro.
+Definition ME (id : N) (disk : string) (bits : N) : ecinfo := mkE id disk bits.
+Definition HJoin (dc rk n : string) (maxs : list (string * Z)) : op := Join dc rk n maxs.
+Definition HAdjustMax (n : path) (maxs : list (string * Z)) : op := AdjustMax n maxs.
+Definition HFullVol (n : path) (vs : list vinfo) : op := FullVol n vs.
+Definition HIncVol (n : path) (news dels : list vshort) : op := IncVol n news dels.
+Definition HFullEc (n : path) (es : list ecinfo) : op := FullEc n es.
+Definition HIncEc (n : path) (news dels : list ecinfo) : op := IncEc n news dels.
+Definition HUnregister (n : path) : op := Unregister n.
+
 Definition servers_eqb := list_eqb server_eqb.
 Definition mem_server (s : server) (l : list server) : bool := existsb (server_eqb s) l.
 Definition all_servers (t : topology) : list server :=
@@ -49,6 +68,12 @@ Definition node_counts_spec (c : case) (ss : list server) : bool :=
 Definition grew (c : case) : bool :=
   match grow_plan c with Some _ => negb (impl_err c) | None => false end.
 
+(* history cases: the new volume (id 7 in the harness; never used by a history) is held by the
+   servers that registered it *)
+Definition new_vid : N := 7.
+Definition grow_events (c : case) : list op :=
+  map (fun s : server => Grow [s_dc s; s_rack s; s_node s] (mkV new_vid (go_disk (opt c)) false false)) (impl_layout c).
+
 Definition check (c : case) : outcome :=
   let fl := match grow_plan c with Some fl => fl | None => [] end in
   let '(m_alloc, m_err) := grow fl (impl_servers c) in
@@ -64,7 +89,17 @@ Definition check (c : case) : outcome :=
                   servers_eqb m_alloc (impl_layout c) &&
                   servers_eqb (filter (fun s => mem_server s m_alloc) (all_servers (topo c))) (impl_holders c) &&
                   topo_eqb (fold_left (add_volume (go_disk (opt c))) m_alloc (topo c)) (topo_after c)
-                else (* the search reads only *) topo_eqb (topo c) (topo_after c));
+                else (* the search reads only *) topo_eqb (topo c) (topo_after c)) &&
+               (* history cases: a consistent history; the tree has exactly the registered servers and
+                  the counters of every level equal the truth (property C12's invariant: the
+                  hypothesis of c10_placement_on_truth), before the call and after the grow *)
+               (match hist c with
+                | None => true
+                | Some ops =>
+                    hist_wf ops && same_nodes (topo c) (truth_of ops) &&
+                    counters_true (topo c) (truth_topology (topo c) (truth_of ops)) &&
+                    counters_true (topo_after c) (truth_topology (topo_after c) (truth_of (ops ++ grow_events c)))
+                end);
      (* property oracle on the implementation's observables: the placement rule on the returned
         servers; success whenever the decidable success condition holds; after grow all of the
         chosen servers hold the volume, or (on error) none *)
@@ -75,7 +110,17 @@ Definition check (c : case) : outcome :=
                   then match impl_holders c, impl_layout c with [], [] => node_counts_spec c [] | _, _ => false end
                   else same_set (impl_holders c) (impl_servers c) && same_set (impl_layout c) (impl_servers c) &&
                        node_counts_spec c (impl_servers c)
-                else true);
+                else true) &&
+               (* history cases: the same rule and success condition against what the servers REALLY
+                  hold (volumes, EC shards and reported max counts from the events alone; free slots
+                  by AvailableSpaceFor's formula on the true counts) *)
+               (match hist c with
+                | None => true
+                | Some ops =>
+                    let T := truth_topology (topo c) (truth_of ops) in
+                    if impl_err c then negb (all_paths_ok T (opt c))
+                    else placement_ok T (opt c) (impl_servers c)
+                end);
      o_trig := if grew c && trigger_partial_grow fl (opt c) then Some 0%N else None;
      o_nontrivial := negb (impl_err c) |}.
 
